@@ -168,6 +168,8 @@ def gen_oplist(r, acc, n_ops=None, dma_p=0.35):
                         continue
                     op["ifm2"] = fm_desc(i2, rand_q(r, dt))
                     op["reversed"] = False
+                if r.random() < 0.3:
+                    op["reversed"] = True  # IFM2 is the first operand (const - x, const >> x ...)
             ops.append(op)
         elif x < dma_p + 0.45:
             # pooling
@@ -368,6 +370,8 @@ def gen_single_op(r, acc):
                 i2 = pool.fm(s2, r.choice(layouts) if s2 == shape else "NHWC", dt, reuse_p=0.0)
                 op["ifm2"] = fm_desc(i2, q(dt))
                 op["reversed"] = False
+            if r.random() < 0.3:
+                op["reversed"] = True
         return dict(acc=acc, ops=[op])
     k = r.choice([(1, 1), (1, 1), (3, 3), (3, 3), (1, 3), (3, 1), (2, 2), (5, 5), (7, 7), (1, 7), (8, 8), (4, 3)])
     dil = r.choice([(1, 1), (1, 1), (1, 1), (2, 2), (2, 1), (1, 2)]) if kind != "pool" else (1, 1)
